@@ -215,13 +215,17 @@ def run_case(idx, rng, tier, ctx):
         wd = ctx['scratch'] / f'c{idx}'
         ok, why = diffexec.syntax_check(wd, [('k.F90', renderings[(132, 'default')])],
                                         extra=['-ffree-line-length-132', '-Werror=line-truncation'])
-        if not ok and 'runcat' in why or (not ok and 'Line truncated' in why):
+        if not ok and 'TIMEOUT' in why:
+            res['inconclusive'] = 'compiler timeout'
+        elif not ok and 'runcat' in why or (not ok and 'Line truncated' in why):
             viol.append({'key': 'linewrap:compiler-truncates-132-rendering', 'msg': why[-300:],
                          'witness': {'source': src, 'wrapped': renderings[(132, 'default')]}})
         elif not ok:
             # not a line-length problem: is the unwrapped rendering accepted?
-            ok2, _ = diffexec.syntax_check(wd, [('k.F90', ref)])
-            if ok2:
+            ok2, why2 = diffexec.syntax_check(wd, [('k.F90', ref)])
+            if 'TIMEOUT' in why2:
+                res['inconclusive'] = 'compiler timeout'
+            elif ok2:
                 viol.append({'key': 'linewrap:wrapped-rendering-rejected-by-compiler', 'msg': why[-300:],
                              'witness': {'source': src, 'wrapped': renderings[(132, 'default')]}})
         res['counters']['compiler_checks'] = 1
@@ -230,6 +234,8 @@ def run_case(idx, rng, tier, ctx):
             d = diffexec.differential(wd, [('k.F90', ref)], [('k.F90', renderings[(W, 'default')])], ('drv.F90', case.driver),
                                       stdins=case.stdins[:2])
             res['counters']['program_runs'] = d['runs'] * 2
+            if d['status'] == 'orig_bad' and 'TIMEOUT' in d['detail']:
+                res['inconclusive'] = 'timeout'
             if d['status'] in ('differ', 'new_build_fail'):
                 viol.append({'key': f"linewrap:narrow-rendering-{'does-not-compile' if d['status'] == 'new_build_fail' else 'behaves-differently'}",
                              'msg': f'width {W}: {d["detail"][:300]}', 'witness': {'source': src, 'width': W, 'wrapped': renderings[(W, 'default')]}})
